@@ -4,7 +4,7 @@
    Layer 2: GetResponseWithPid / GetResponseFromData / NackWithReason (common/rdm/RDMCommand.cpp).
    Layer 3: the generic ResponderHelper parsers (common/rdm/ResponderHelper.cpp), the
             PersonalityManager / SlotDataCollection / Sensor / SettingManager lookups they use.
-   Fan-out: SubDeviceDispatcher (common/rdm/SubDeviceDispatcher.cpp, with fix 01 applied) and
+   Fan-out: SubDeviceDispatcher (common/rdm/SubDeviceDispatcher.cpp, with fixes 01 and 02 applied) and
             DimmerResponder::SendRDMRequest.
    Constants come from Gen.v (regenerated from the repository headers on every run). *)
 From OlaBase Require Import Bytes.
@@ -175,7 +175,7 @@ Section Dispatch.
   Definition fan_out (devs : list (N * device)) (q : request) (st : State) : fres :=
     if q_cc q =? GET_COMMAND then FOk (nack_if_not_broadcast q NR_SUB_DEVICE_OUT_OF_RANGE) st
     else match devs with
-         | [] => FOk [(RDM_WAS_BROADCAST, None)] st
+         | [] => FOk (nack_if_not_broadcast q NR_SUB_DEVICE_OUT_OF_RANGE) st     (* fix 02 *)
          | _ => fan_loop devs q (mkTr (u16 (len devs)) 0 (RDM_COMPLETED_OK, None) true) [] st
          end.
 
